@@ -1033,9 +1033,20 @@ class Engine:
         calls = self.forking_calls(e)
         if not calls:
             return [(st, final(st))]
-        if isinstance(e, (ast.BoolOp, ast.IfExp)) and len(calls) >= 1 and not (len(calls) == 1 and calls[0] is e):
-            # short-circuit context: only supported when the forking call is the LAST operand evaluated
-            pass
+        if (isinstance(e, ast.BoolOp) and as_cond and len(e.values) >= 2 and getattr(self.c, 'short_circuit_forks', False) and
+                not any(self.forking_calls(x) for x in e.values[:-1]) and self.forking_calls(e.values[-1])):
+            # opt-in: `a and b and CALL(...)` / `a or CALL(...)` - the forking call (with its side effects on the ghost state) happens only when the
+            # operands before it did not decide the result
+            is_and = isinstance(e.op, ast.And)
+            pre = self.cond(ast.BoolOp(op=e.op, values=e.values[:-1]) if len(e.values) > 2 else e.values[0], st)
+            out = []
+            decided = st.fork(z3.Not(pre) if is_and else pre, f'L{e.lineno}:short-circuit')
+            if self.feasible(decided):
+                out.append((decided, Bool(not is_and)))
+            go = st.fork(pre if is_and else z3.Not(pre), f'L{e.lineno}:last-operand')
+            if self.feasible(go):
+                out.extend(self.eval_forking(e.values[-1], go, as_cond=True))
+            return out
         states = [(st, None)]
         for cnode in calls:
             nxt = []
